@@ -259,6 +259,27 @@ fn run_case(seed: u64, k: usize, out: &mut CaseOut) -> Option<Violation> {
     if let Some(v) = compare_queries(seed, k, "fresh", &t, &b, &inp, out) {
         return Some(v);
     }
+    // a bulk-loaded database is a database like any other: vacuuming it (before it was ever
+    // compacted) must leave it equal to the transactional one as well
+    let b = if k % 3 == 0 {
+        drop(b);
+        out.count("bulk_loaded_databases_vacuumed", 1);
+        if let Err(e) = ndb_core::vacuum(dbk.db_base()) {
+            return Some(viol(seed, k, "vacuum-of-bulk-loaded-failed", format!("vacuum of the bulk-loaded database failed: {e}"), &[], &inp, json!({})));
+        }
+        let b = match catch_unwind(AssertUnwindSafe(|| Db::open(dbk.db_base()))) {
+            Ok(Ok(d)) => d,
+            Ok(Err(e)) => return Some(viol(seed, k, "open-after-vacuum-of-bulk-loaded-failed", format!("the bulk-loaded database does not open after vacuum: {e}"), &[], &inp, json!({}))),
+            Err(p) => return Some(viol(seed, k, "open-after-vacuum-of-bulk-loaded-panicked", format!("opening the vacuumed bulk-loaded database panicked: {}", panic_msg(&p)), &[], &inp, json!({}))),
+        };
+        let d = diff_facts(&full(&t), &full(&b), usize::MAX);
+        if !d.is_empty() {
+            return Some(viol(seed, k, "content-differs-after-vacuum-of-bulk-loaded", "after vacuum the bulk-loaded database differs from the transactional one".into(), &d, &inp, json!({})));
+        }
+        b
+    } else {
+        b
+    };
     // compact T (so both are segment-backed), reopen both
     if t.compact().is_err() {
         out.inconclusive("compact-of-transactional-failed");
